@@ -526,6 +526,7 @@ def getitem(a, key):
     if any(k is Ellipsis for k in key):
         i = [k is Ellipsis for k in key].index(True)
         key = key[:i] + (slice(None),) * (a.ndim - n_real) + key[i + 1:]
+        n_real = sum(1 for k in key if k is not None)
     if n_real > a.ndim:
         raise ShapeError("too many indices for array")
     key = key + (slice(None),) * (a.ndim - n_real)
@@ -768,8 +769,45 @@ def einsum(spec, *ops):
 
 
 def tensordot(a, b, axes=2):
+    if isinstance(axes, Poly) and axes.as_int() is not None:
+        axes = axes.as_int()
     if not isinstance(axes, int):
-        raise ModelError("tensordot with explicit axes")
+        # explicit axes: (axes of a, axes of b), contracted pairwise; result = free axes of a then free axes of b
+        try:
+            aa, ab = axes
+            aa = [aa] if isinstance(aa, (int, Poly)) else list(aa)
+            ab = [ab] if isinstance(ab, (int, Poly)) else list(ab)
+            aa = [(int(x.as_int()) if isinstance(x, Poly) else int(x)) % a.ndim for x in aa]
+            ab = [(int(x.as_int()) if isinstance(x, Poly) else int(x)) % b.ndim for x in ab]
+        except (TypeError, ValueError, AttributeError):
+            raise ModelError("tensordot axes")
+        if len(aa) != len(ab):
+            raise ShapeError("tensordot: axes lists of different lengths")
+        for x, y in zip(aa, ab):
+            if not dim_eq(a.shape[x], b.shape[y]):
+                raise ShapeError("tensordot: shape mismatch")
+        free_a = [k for k in range(a.ndim) if k not in aa]
+        free_b = [k for k in range(b.ndim) if k not in ab]
+        shape2 = tuple(a.shape[k] for k in free_a) + tuple(b.shape[k] for k in free_b)
+        afn, bfn = a.fn, b.fn
+
+        def fn2(*idx):
+            ia = dict(zip(free_a, idx[:len(free_a)]))
+            ib = dict(zip(free_b, idx[len(free_a):]))
+
+            def rec(k):
+                if k == len(aa):
+                    return P(afn(*[ia[j] for j in range(a.ndim)])) * P(bfn(*[ib[j] for j in range(b.ndim)]))
+
+                def body(v):
+                    ia[aa[k]] = v
+                    ib[ab[k]] = v
+                    return rec(k + 1)
+                return T.Sum(a.shape[aa[k]], body)
+            return rec(0)
+        if not shape2:
+            return fn2()
+        return Arr(shape2, fn2)
     n = axes
     for k in range(n):
         if not dim_eq(a.shape[a.ndim - n + k], b.shape[k]):
